@@ -4,6 +4,8 @@ Interpreter for hexary histories (see hexcommon) with pluggable oracles:
   'root'  reference MPT root + stored root body after every op (C02)
   'prune' database == live hashed nodes, ref counts == reference multiset (C06)
 """
+from hexbytes import HexBytes
+
 from trie import HexaryTrie
 from trie.constants import BLANK_NODE_HASH
 
@@ -17,6 +19,8 @@ def apply_look(trie, model, op, prev=None):
     key = resolve_key(op[1], sorted(model), prev.get(None) if prev else None)
     want = model.get(key, b"")
     sp = op[2]
+    if len(key) % 3 == 1:
+        key = HexBytes(key)
     if sp == 0:
         expect_eq("get-returns-latest", impl("lookup-never-raises", trie.get, key), want, f"get({key!r})")
     elif sp == 1:
@@ -44,28 +48,30 @@ def apply_simple(trie, model, op, allowed=(), prev=None):
         old = model[key]
     else:
         old = None
+    syn = op[3] if kind == "set" else op[2]
+    akey = HexBytes(key) if syn >= 2 else key  # a bytes subclass is a byte string too
     if kind == "set":
         val = resolve_val(op[2], key, prev)
         if prev is not None and old is not None and old != val:
             prev[key] = old
-        fn = trie.__setitem__ if op[3] else trie.set
-        r = impl("set-never-raises", fn, key, val, allowed=allowed)
+        fn = trie.__setitem__ if syn % 2 else trie.set
+        r = impl("set-never-raises", fn, akey, HexBytes(val) if syn >= 2 else val, allowed=allowed)
         if isinstance(r, Raised):
             return key, "faulted"
         noop = model.get(key) == val
         model[key] = val
         return key, ("noop-update" if noop else "set")
     if kind == "del":
-        fn = trie.__delitem__ if op[2] else trie.delete
-        r = impl("delete-never-raises", fn, key, allowed=allowed)
+        fn = trie.__delitem__ if syn % 2 else trie.delete
+        r = impl("delete-never-raises", fn, akey, allowed=allowed)
         if isinstance(r, Raised):
             return key, "faulted"
         present = key in model
         model.pop(key, None)
         return key, ("delete" if present else "delete-absent")
     if kind == "sete":
-        fn = trie.__setitem__ if op[2] else trie.set
-        r = impl("set-empty-never-raises", fn, key, b"", allowed=allowed)
+        fn = trie.__setitem__ if syn % 2 else trie.set
+        r = impl("set-empty-never-raises", fn, akey, b"", allowed=allowed)
         if isinstance(r, Raised):
             return key, "faulted"
         present = key in model
